@@ -285,6 +285,16 @@ def _max(ex, args, kwargs, node):
 def _min(ex, args, kwargs, node):
     if len(args) == 2 and all(isinstance(a, VInt) for a in args):
         return VInt(z3.If(args[0].t <= args[1].t, args[0].t, args[1].t))
+    if len(args) == 1 and isinstance(args[0], VList) and args[0].et is TInt:
+        # min of a list of ints: a lower bound that is attained; raises ValueError on []
+        l = args[0]
+        ex.oblige("noraise.min_of_empty", node, l.len() > 0)
+        m = ex.st.fresh_const("min", L.Int)
+        w = ex.st.fresh_const("minw", L.Int)
+        i = z3.Int("_min_i")
+        ex.st.assume(L.Forall([i], [L.LInt.at(l.t, i)], z3.Implies(z3.And(0 <= i, i < l.len()), m <= L.LInt.at(l.t, i)), "min.lower"))
+        ex.st.assume(z3.And(0 <= w, w < l.len(), L.LInt.at(l.t, w) == m))
+        return VInt(m)
     if all(isinstance(a, (VFloat, VInt)) for a in args):
         return VFloat()
     raise Unsupported("min")
